@@ -107,7 +107,8 @@ def run(rep, tier, seed, replay):
         fl = trunc + [f for f in fl if f[0] != "truncate"]
         for mk in marks:
             rem = len(enc) - (mk["pos"] + mk["w"])
-            for v in (0, 1, max(0, rem - 1), rem + 1, 2**31 - 1, 2**32 - 1, 2**63 - 1, 2**64 - 1):
+            # (the last three: a length whose LOW 32 bits fit the remaining input while the value itself does not)
+            for v in (0, 1, max(0, rem - 1), rem + 1, 2**31 - 1, 2**32 - 1, 2**63 - 1, 2**64 - 1, 2**32, 2**32 + max(0, rem - 1), 2**40 + 1):
                 vb = []
                 x = v
                 while True:
